@@ -223,10 +223,17 @@ func guardRows(w *World, r *Report, prop string) {
 		}
 		okAll := true
 		for _, sc := range scs {
+			e.undecidedOnSubject = nil
 			ok, why := e.checkRow(f, sc, row)
 			if !ok {
 				okAll = false
-				r.add("GUARD", key, pos, Violated, fmt.Sprintf("scenario {%s}: %s -- %s", sc, why, row.Doc))
+				if len(e.undecidedOnSubject) > 0 {
+					// a test of the argument lies on the way that the oracle cannot evaluate:
+					// the exclusion may be enforced in a form the analysis does not interpret
+					r.add("GUARD", key, pos, Undecided, fmt.Sprintf("scenario {%s}: %s, but only past test(s) of the argument the analysis could not evaluate (%s) -- %s", sc, why, abbrev(strings.Join(uniqStrings(e.undecidedOnSubject), "; "), 240), row.Doc))
+				} else {
+					r.add("GUARD", key, pos, Violated, fmt.Sprintf("scenario {%s}: %s -- %s", sc, why, row.Doc))
+				}
 				break
 			}
 		}
@@ -641,3 +648,4 @@ func ruleNoPartial(w *World, r *Report, fn string) {
 		r.add("NOPARTIAL", fn, w.Pos(f.Pos()), Undecided, "no failure return found")
 	}
 }
+
